@@ -93,7 +93,14 @@ SITES = {
     'unwrap_or_else': r'\.\s*unwrap_or_else\s*\(',
     'map_err_const': r'\.\s*map_err\s*\(',
     'ok_or_else': r'\.\s*ok_or_else\s*\(',
+    'opt_map_ctor': r'\.\s*map\s*\(\s*[A-Z]\w*(?:::\w+)+\s*\)',
 }
+
+
+def count_sites(text, kind):
+    m = rs.mask(text)
+    WS = r'(?:\s|\x01T?\d+\x01)*'
+    return len(list(rs.find_code(text, m, SITES[kind].replace(r'\s*', WS), 0, len(text))))
 
 
 def apply(text, args):
@@ -111,6 +118,10 @@ def apply(text, args):
     rstart = _receiver_start(text, m, s)
     recv = text[rstart:s]
     recv_clean = re.sub('\x01T?\\d+\x01', '', recv).strip()
+    if kind == 'opt_map_ctor':
+        ctor = re.search(r'\(\s*([A-Z]\w*(?:::\w+)+)\s*\)$', text[s:e]).group(1)
+        new = '(match %s { Some(__t4_v) => Some(%s(__t4_v)), None => None })' % (recv.strip(), ctor)
+        return text[:rstart] + new + text[e:], '%s #%d: `%s`.map(%s)' % (kind, k, recv_clean, ctor)
     pat, body, close = _closure(text, m, e - 1)
     uid = '%s%d' % (kind, k)
     if kind in ('bytes_all', 'bytes_any'):
